@@ -32,6 +32,16 @@ Members2 == {<<[kind |-> a, tag |-> tp[1], opt |-> oa, present |-> TRUE, extra |
                [kind |-> b, tag |-> tp[2], opt |-> ob[1], present |-> ob[2], extra |-> ""]>> :
                a \in Kinds2, b \in Kinds2, tp \in TagPairs, oa \in {FALSE}, ob \in {<<FALSE, TRUE>>, <<TRUE, TRUE>>, <<TRUE, FALSE>>}}
 
+\* a context-tagged OPTIONAL member [N] followed by an UNTAGGED member whose universal tag number is N as well
+\* (BOOLEAN 1, INTEGER 2, BIT STRING 3, OCTET STRING 4, NULL 5, ENUMERATED 10, UTF8String 12, SEQUENCE 16): class matters
+UnivOf == [bool |-> 1, int |-> 2, bits |-> 3, octets |-> 4, null |-> 5, enum |-> 10, utf8 |-> 12, struct2 |-> 16, sliceint |-> 16]
+MembersMixed == {<<[kind |-> a, tag |-> UnivOf[b], opt |-> TRUE, present |-> pr, extra |-> ""],
+                   [kind |-> b, tag |-> -1, opt |-> FALSE, present |-> TRUE, extra |-> ""]>> :
+                   a \in {"int", "octets", "bool"}, b \in DOMAIN UnivOf \cap Kinds1, pr \in BOOLEAN}
+               \cup {<<[kind |-> b, tag |-> -1, opt |-> FALSE, present |-> TRUE, extra |-> ""],
+                      [kind |-> a, tag |-> UnivOf[b], opt |-> TRUE, present |-> pr, extra |-> ""]>> :
+                   a \in {"int", "octets"}, b \in DOMAIN UnivOf \cap Kinds1, pr \in BOOLEAN}
+
 Cases ==
      {[mode |-> "prim", type |-> "int", val |-> x] : x \in IntVals}
   \cup {[mode |-> "prim", type |-> "enum", val |-> x] : x \in IntVals}
@@ -44,6 +54,8 @@ Cases ==
   \cup {[mode |-> "fuzz", only |-> a] : a \in FuzzFirst}
   \cup {[mode |-> "shape", top |-> tp, members |-> m, leaf |-> lf, seed |-> sd] :
           tp \in {"struct", "choice"}, m \in Members1 \cup Members2, lf \in Leafs, sd \in {CHOOSE z \in Seeds : TRUE}}
+  \cup {[mode |-> "shape", top |-> "struct", members |-> m, leaf |-> lf, seed |-> sd] :
+          m \in MembersMixed, lf \in Leafs, sd \in {CHOOSE z \in Seeds : TRUE}}
 
 Init == case = <<>> /\ done = FALSE
 Pick == ~done /\ (\E c \in Cases : case' = c) /\ done' = TRUE
